@@ -1,6 +1,6 @@
 (* C01 Escrow solvency: funds held always equal what open orders are owed. *)
 From ATS Require Import Prelude Dec DecFacts Uuid Semver Types Contract Tactics Spec Inv InvAsk InstProofs AskProofs
-  BidFacts InvBid InvStep ExitProofs Ledger MigrateProofs MigrateInv Hist.
+  BidFacts InvBid InvStep ExitProofs Ledger MigrateProofs MigrateInv Hist Witness.
 
 (* Per step.  For every accepted request of any kind, in any state satisfying the invariant, outside the known
    numeric classes (clean_exec: a side condition on MATCHES only -- the products price*size it forms are exact, which
@@ -99,3 +99,18 @@ Example C01_refuted_on_pinned_code :
   (match instantiate ex_env empty_state d2_inst with
    | Ok (st0, _) => let '(i, o, s) := ledger0 st0 d2 "q" in (i, o, owed s "q") | Refused _ => (0, 0, 0) end) = (11, 10, 0).
 Proof. vm_compute. split; reflexivity. Qed.
+
+(* the hypotheses of the theorems above are met by a concrete non-trivial history (Witness.v): an accepted
+   instantiation with two fee rates and a restricted quote marker; an approved convertible ask and a fee-bearing bid,
+   created, partly filled at an improved price, partly rejected, both still open (remaining 50 and 60, unspent quote
+   150, fee held 15); every step accepted, clean, never from the contract itself; the invariant holds at the end *)
+Example C01_hypotheses_are_met :
+  env_version_ok w_env /\ (exists r0, instantiate w_env empty_state w_inst = Ok (w_st0, r0)) /\
+  clean_run w_st0 w_hist /\ never_self w_hist /\ Inv (run w_st0 w_hist) /\
+  st_asks (run w_st0 w_hist) <> [] /\ st_bids (run w_st0 w_hist) <> [].
+Proof. exact witness. Qed.
+Example C01_witness_balances : forall d,
+  fst (ledger w_st0 w_hist d) = snd (ledger w_st0 w_hist d) + owed (run w_st0 w_hist) d.
+Proof.
+  intros d. destruct w_inst_ok as [r0 Hi]. exact (C01_solvency w_env w_inst w_st0 r0 w_hist d w_env_ok Hi w_clean w_never_self).
+Qed.
